@@ -17,8 +17,10 @@ import (
 	"net/http"
 	"net/http/httptest"
 	"path/filepath"
+	"runtime"
 	"sort"
 	"sync"
+	"sync/atomic"
 	"testing"
 	"testing/synctest"
 	"time"
@@ -161,8 +163,9 @@ func TestC11(t *testing.T) {
 		}
 		realServer(t, r)
 		twoStoresOneServer(t, r)
+		crowdAtTheEndOfARound(t, r)
 	}
-	r.Require("overlapping_polls_of_two_stores", "polls_ok", "polls_failed", "changes_forward", "changes_backward", "changes_inside_window", "expired_with_handle_polls",
+	r.Require("second_rounds_after_a_rollback", "overlapping_polls_of_two_stores", "polls_ok", "polls_failed", "changes_forward", "changes_backward", "changes_inside_window", "expired_with_handle_polls",
 		"cadence_rounds", "cadence_cases_with_slow_service", "cadence_cases_with_an_outage", "cadence_cases_with_explicit_refreshes", "parked_cache_write_cases", "ticker_overlap_cases", "coalesced_refreshes", "coalesced_with_cancelled_leader", "coalesced_after_a_joiner_gave_up", "polls_with_cache_down", "real_server_refreshes", "real_server_empty_values", "final_convergence_checks")
 	r.Rule("A: seeded histories of 8-25 events over 2-5 secrets (declared, looked-up, expiry-aged with a live unread handle): service changes (new version / re-activate an older one / bursts), Refresh with per-request failure and hold scripts (service changes inside the held window), sleeps up to several expiry ages, handle probes; oracle after every Refresh on the cache payload and at probes on handles. Plus cadence cases (background poller, instant service), coalescing cases (K refreshes while the first request is parked) and B: real server+client histories. Distinct = (event kind, poll outcome, backwards?, held?, expiry shape)")
 }
@@ -852,6 +855,79 @@ func twoStoresOneServer(t *testing.T, r *evid.Run) {
 		b.Close()
 		hs.Close()
 	}
+}
+
+// crowdAtTheEndOfARound: the service moves x from 1 to 2; a round fetches 2 and its reply is still on its way
+// when the operator rolls x back to 1; just as that round ends, a crowd of further Refresh calls arrives. Some
+// join the ending round, some start the next one - which runs entirely after the rollback: when every call has
+// returned without error and a second round of requests was made, the store yields version 1.
+func crowdAtTheEndOfARound(t *testing.T, r *evid.Run) {
+	const crowd = 32
+	ctx := context.Background()
+	second := 0
+	for trial, n := 0, r.N(1500, 15000); trial < n; trial++ {
+		svc := fakesvc.New()
+		svc.Set("x", 1, []byte("v1"))
+		st, err := setec.NewStore(ctx, setec.StoreConfig{Client: svc, Secrets: []string{"x"}, PollInterval: -1, Logf: func(string, ...any) {}})
+		if err != nil {
+			t.Fatal(err)
+		}
+		arrived := make(chan struct{})
+		gate := make(chan struct{})
+		var first atomic.Bool
+		svc.Behave = func(q *fakesvc.Req) fakesvc.Behaviour {
+			if q.Cond && first.CompareAndSwap(false, true) {
+				close(arrived)
+				return fakesvc.Behaviour{Hold: gate, Snapshot: true} // the answer (version 2) is what the service held on arrival
+			}
+			return fakesvc.Behaviour{}
+		}
+		base := svc.NumRequests()
+		svc.Set("x", 2, []byte("v2"))
+		errs := make(chan error, crowd+1)
+		go func() { errs <- st.Refresh(ctx) }()
+		<-arrived
+		svc.Set("x", 1, []byte("v1")) // rolled back while the reply is on its way
+		start := make(chan struct{})
+		var wg sync.WaitGroup
+		for i := 0; i < crowd; i++ {
+			wg.Add(1)
+			go func() {
+				defer wg.Done()
+				<-start
+				errs <- st.Refresh(ctx)
+			}()
+		}
+		close(start)
+		for i := 0; i < trial%64; i++ {
+			runtime.Gosched()
+		}
+		close(gate)
+		wg.Wait()
+		failed := false
+		for i := 0; i < crowd+1; i++ {
+			if err := <-errs; err != nil {
+				r.Violation("poll-fails", -1, fmt.Sprintf("crowd trial %d: Refresh: %v", trial, err), nil)
+				failed = true
+			}
+		}
+		rounds := svc.NumRequests() - base
+		got := string(st.Secret("x").Get())
+		st.Close()
+		r.Eval(1)
+		if failed {
+			return
+		}
+		if rounds >= 2 {
+			second++
+			r.Count("second_rounds_after_a_rollback", 1)
+			if got != "v1" {
+				r.Violation("stale-after-successful-poll", -1, fmt.Sprintf("crowd trial %d: %d rounds of requests, every Refresh returned nil, the last %d round(s) ran entirely after the service had gone back to version 1 - yet the store yields %q (a round that asks about a version the store no longer holds is told 'not changed')", trial, rounds, rounds-1, got), nil)
+				return
+			}
+		}
+	}
+	r.Distinct("crowd at the end of a round")
 }
 
 func newMux(t *testing.T, d interface{}) *muxT { return buildMux(t, d) }
